@@ -55,26 +55,35 @@ def model(Fn, Xi, Phi, ordmin, ordmax, step, efn, exi, ephi):
                 continue
             d = np.where(fin_prev, np.abs(Fn[:, o - 1] - Fn[i, o]), np.inf)
             j = int(np.argmin(d))
-            if np.sum(d <= d[j] * (1 + 1e-12) + 1e-300) > 1:
+            # exact ties for the nearest neighbour (the two poles of a conjugate pair share one frequency): the statement does not say
+            # which one is compared - the cell is judged iff every tied candidate gives the same, unambiguous verdict
+            cands = [int(q) for q in np.where(d <= d[j] * (1 + 1e-12) + 1e-300)[0]]
+            verdicts = []
+            for jj in cands:
+                f, fp = Fn[i, o], Fn[jj, o - 1]
+                x, xp = Xi[i, o], Xi[jj, o - 1]
+                a, b = Phi[i, o], Phi[jj, o - 1]
+                c1, c1b = abs(f - fp) / f, abs(f - fp) / fp
+                c2, c2b = abs(x - xp) / x, abs(x - xp) / xp
+                c3 = 1 - abs(np.vdot(a, b)) ** 2 / (np.vdot(a, a).real * np.vdot(b, b).real)
+                amb = False
+                for c, t in ((c1, efn), (c2, exi), (c3, ephi)):
+                    if not np.isfinite(c) or abs(c - t) <= 1e-9 * max(1.0, abs(t)):
+                        amb = True
+                if (c1 < efn) != (c1b < efn) or (c2 < exi) != (c2b < exi):
+                    amb = True
+                verdicts.append((bool(c1 < efn), bool(c2 < exi), bool(c3 < ephi), amb))
+            p1, p2, p3, _ = verdicts[0]
+            if any(v[3] for v in verdicts) or len({v[0] and v[1] and v[2] for v in verdicts}) > 1:
                 judged[i, o] = False
-            f, fp = Fn[i, o], Fn[j, o - 1]
-            x, xp = Xi[i, o], Xi[j, o - 1]
-            a, b = Phi[i, o], Phi[j, o - 1]
-            c1, c1b = abs(f - fp) / f, abs(f - fp) / fp
-            c2, c2b = abs(x - xp) / x, abs(x - xp) / xp
-            c3 = 1 - abs(np.vdot(a, b)) ** 2 / (np.vdot(a, a).real * np.vdot(b, b).real)
-            for c, t in ((c1, efn), (c2, exi), (c3, ephi)):
-                if not np.isfinite(c) or abs(c - t) <= 1e-9 * max(1.0, abs(t)):
-                    judged[i, o] = False
-            if (c1 < efn) != (c1b < efn) or (c2 < exi) != (c2b < exi):
-                judged[i, o] = False
-            p1, p2, p3 = bool(c1 < efn), bool(c2 < exi), bool(c3 < ephi)
             Lab[i, o] = int(p1 and p2 and p3)
             nfail = 3 - (p1 + p2 + p3)
             st = "stable" if nfail == 0 else ("fails several" if nfail > 1 else ("fails fn only" if not p1 else ("fails xi only" if not p2 else "fails MAC only")))
             state[i, o] = st
             if j != i and judged[i, o]:
                 state[i, o] = st + "|nn"
+            if len(cands) > 1 and judged[i, o]:
+                state[i, o] = state[i, o] + "|tie"
     return Lab, judged, state
 
 
@@ -99,10 +108,12 @@ def judge(ctx, tag, args, L, skip_cols=()):
                  f"tol=({efn},{exi},{ephi}); {int(bad.sum())} of {int(judged.sum())} judged cells differ")
     for s in np.unique(state[judged]):
         if s:
-            base, _, nn = s.partition("|")
+            base, *flags = s.split("|")
             ctx.state(base, int((state[judged] == s).sum()))
-            if nn:
+            if "nn" in flags:
                 ctx.state("nearest neighbour is not the same row", int((state[judged] == s).sum()))
+            if "tie" in flags:
+                ctx.state("tied nearest neighbours with one verdict (conjugate pair)", int((state[judged] == s).sum()))
     fin = np.isfinite(Fn) & judged
     if (M[fin] == 1).any() and (M[fin] == 0).any():
         ctx.nontrivial((tag, probes.sha(np.nan_to_num(Fn))[:10]))
